@@ -3281,7 +3281,9 @@ class Qube(object):
                      drank = max(self._drank_, arg._drank_),
                      example = self)
 
-        obj.insert_derivs(self._mul_derivs(arg))
+        if recursive:
+            obj.insert_derivs(self._mul_derivs(arg))
+
         return obj
 
     #===========================================================================
